@@ -52,15 +52,14 @@ class ClientConnectionJob(object):
                         # other errors log a warning, break this loop and close the client connection
                         ex_t, ex_v, ex_tb = sys.exc_info()
                         tb = errors.format_traceback(ex_t, ex_v, ex_tb)
-                        msg = "error during handleRequest: %s; %s" % (ex_v, "".join(tb))
-                        log.warning(msg)
+                        log.warning("error during handleRequest: %s; %s", ex_v, "".join(tb))
                         break
             finally:
                 with _client_disconnect_lock:
                     try:
                         self.daemon._clientDisconnect(self.csock)
                     except Exception as x:
-                        log.warning("Error in clientDisconnect: " + str(x))
+                        log.warning("Error in clientDisconnect: %s", x)
                 self.csock.close()
 
     def handleConnection(self):
